@@ -18,6 +18,35 @@ CHECKS = {
         'string), the YAML 1.2 core-schema productions written as reference regexes, PyYAML for int/null/'
         'timestamp typing. A sign on .nan is accepted either way.',
         'DESIGN.md 3 C09'),
+    'C01': (
+        'exhaustive enumeration of (class model x document) pairs on the real load function with a conformance oracle',
+        'Every model of the catalogues (all root types, 1- and 2-parameter classes over the type alphabet, nested, '
+        'string-like, seasoned, hierarchies, permissive recognisers, 20 node-rewriting savorize functions) is combined '
+        'with every document of D(T) (valid trees, every single-point mutation including every tag of the tag alphabet '
+        'at every node, every tree up to 3/4 nodes, the empty documents); every value that is returned is checked '
+        'all the way down against the declared type, including the kwargs each constructor received.',
+        'Trusts: the generated self-instrumenting classes record what __init__ received; the conformance predicate '
+        'in mc/refsem.py. Values and models outside the alphabets are not covered.',
+        'DESIGN.md 3 C01'),
+    'C02': (
+        'exhaustive enumeration of (class model x document) pairs; every verdict/value of an executable reference '
+        'model of the documented pipeline is replayed against the real load function',
+        'For every auto-recognised model of the catalogue and every document of D(T) the reference semantics '
+        '(mc/refsem.py, written from the documentation, no yatiml imports) decides accept/reject and the value; the '
+        'real load function must accept iff the reference accepts and build a structurally equal value (classes, '
+        'constructor kwargs, defaults, extras as ordered mapping, dict order).',
+        'Trusts: the hand-written reference semantics and its calibration points K1-K8; PyYAML scalar constructors '
+        'on both sides; the renderer (each text is composed back and compared with the intended tree).',
+        'DESIGN.md 3 C02'),
+    'C08': (
+        'exhaustive enumeration of all texts up to a length bound over YAML token alphabets and of all nasty '
+        'single-point mutations of catalogue documents, observing the exception type leaving the real load function',
+        'Every string of length <= 4/5/6 over a 14-symbol YAML alphabet and <= 2/3 over 28 indicators on six load '
+        'functions, every nasty mutation (explicit core tags with wrong content, PyYAML edge spellings, merge, '
+        'duplicate, null and complex keys, cycles) of the catalogue documents, and models whose constructors and hooks '
+        'raise: only RecognitionError or yaml.YAMLError may leave load().',
+        'Trusts: nothing beyond the Python exception type observed; nesting is bounded (<= 6).',
+        'DESIGN.md 3 C08'),
 }
 
 NOT_BUILT = {}
